@@ -303,3 +303,94 @@ func stripChangeType(v ssa.Value) ssa.Value {
 		return v
 	}
 }
+
+// chanFieldsOf resolves a channel value to the struct fields (owner, field) it may have been loaded from, following
+// conversions, φ-nodes, parameters (to the arguments of every call / go / defer site of the function in the package)
+// and free variables (to the bindings of the closure).
+func (c *Ctx) chanFieldsOf(v ssa.Value, pkgFuncs []*ssa.Function) [][2]string {
+	var out [][2]string
+	seen := map[ssa.Value]bool{}
+	var walk func(v ssa.Value, depth int)
+	walk = func(v ssa.Value, depth int) {
+		if v == nil || seen[v] || depth > 6 {
+			return
+		}
+		seen[v] = true
+		if owner, f, ok := fieldLoad(v); ok {
+			out = append(out, [2]string{owner, f})
+			return
+		}
+		switch x := v.(type) {
+		case *ssa.ChangeType:
+			walk(x.X, depth)
+		case *ssa.Convert:
+			walk(x.X, depth)
+		case *ssa.MakeInterface:
+			walk(x.X, depth)
+		case *ssa.Phi:
+			for _, e := range x.Edges {
+				walk(e, depth)
+			}
+		case *ssa.UnOp:
+			if al, isAl := x.X.(*ssa.Alloc); isAl {
+				for _, ref := range *al.Referrers() {
+					if s, isS := ref.(*ssa.Store); isS && s.Addr == ssa.Value(al) {
+						walk(s.Val, depth)
+					}
+				}
+			}
+			if fv, isFV := x.X.(*ssa.FreeVar); isFV {
+				walk(fv, depth)
+			}
+		case *ssa.Parameter:
+			fn := x.Parent()
+			idx := -1
+			for i, p := range fn.Params {
+				if p == x {
+					idx = i
+				}
+			}
+			for _, g := range pkgFuncs {
+				for _, b := range g.Blocks {
+					for _, ins := range b.Instrs {
+						ci, isCI := ins.(ssa.CallInstruction)
+						if !isCI {
+							continue
+						}
+						cc := ci.Common()
+						var callee *ssa.Function
+						switch cv := cc.Value.(type) {
+						case *ssa.Function:
+							callee = cv
+						case *ssa.MakeClosure:
+							callee, _ = cv.Fn.(*ssa.Function)
+						}
+						if callee != fn || cc.IsInvoke() || idx >= len(cc.Args) {
+							continue
+						}
+						walk(cc.Args[idx], depth+1)
+					}
+				}
+			}
+		case *ssa.FreeVar:
+			fn := x.Parent()
+			idx := -1
+			for i, p := range fn.FreeVars {
+				if p == x {
+					idx = i
+				}
+			}
+			if par := fn.Parent(); par != nil && idx >= 0 {
+				for _, b := range par.Blocks {
+					for _, ins := range b.Instrs {
+						if mc, isMC := ins.(*ssa.MakeClosure); isMC && mc.Fn == ssa.Value(fn) && idx < len(mc.Bindings) {
+							walk(mc.Bindings[idx], depth+1)
+						}
+					}
+				}
+			}
+		}
+	}
+	walk(v, 0)
+	return out
+}
